@@ -90,6 +90,10 @@ func hookedCaller(fr *frame) bool {
 // fsPoint marks one file-system operation; returns true if an injected fault makes it fail.
 func fsPoint(fr *frame, op, path string) bool {
 	used("file system (model: in-memory POSIX semantics; calls from lib/file and go-file are scheduling, crash and fault points)")
+	switch op {
+	case "read", "write", "seek", "truncate":
+		return false // data transfer on an open handle: not intercepted natively, so not a point here
+	}
 	if !hookedCaller(fr) {
 		return false
 	}
